@@ -11,7 +11,7 @@ TB_COMMON = "Trusted base: the harness itself (reference model named in the text
 CHECKS = {
     "C01": dict(cat="model_checking", design="§4 C01, §3.2, §3.3", engine=ENGINE,
                 technique="explicit-state exploration (layered parallel BFS keyed by the Debug rendering of the real Registry, cross-checked against stateright) of registration histories on the real Registry + exhaustive enumeration of all small type graphs x root sequences, builder histories and (registry, filter) pairs; invariant: dense and closed",
-                text="Every reachable state of: (a) all register_type / register_types / into_portable / map_into_portable histories over the 87-member static universe U1 to depth 3 (quick) / 4 (thorough) and over a 19-op core alphabet to depth 5 / 6; (a') long histories: every member of U1 plus four roots into a chain of 260 types registered in one history, for all 2n rotations and reversals, and U1+U3 (~1900 roots, ~1500 entries) for 16 / 32 orders; (b) every type graph of the U2 plans (all graphs up to 3 nodes, 4 thorough, incl. self and mutual recursion and parameter-only reachability) x every root sequence with repetition; (c) every builder history (13 values + finish()) to depth 5/6; (d) every (registry, filter) pair of the C10 enumeration incl. the large registries (chains, star, tree of up to 130 / 1030 entries); and decode(encode(r)) of all of them, is checked for id == index, resolve agreement, Registry::types() keys in order, and closure of every mentioned id (fields, variant fields, params, sequence/array/compact element, tuple members, bit store/order).",
+                text="Every reachable state of: (a) all register_type / register_types / into_portable / map_into_portable histories over the 87-member static universe U1 to depth 3 (quick) / 4 (thorough) and over a 19-op core alphabet to depth 5 / 6; (a') long histories: every member of U1 plus four roots into a chain of 260 types registered in one history, for all 2n rotations and reversals, and U1+U3 (~1900 roots, ~1500 entries) for 16 / 32 orders, each order handed over one by one and through register_types (all at once, batches of 33 and 7); (b) every type graph of the U2 plans (all graphs up to 3 nodes, 4 thorough, incl. self and mutual recursion and parameter-only reachability) x every root sequence with repetition; (c) every builder history (13 values + finish()) to depth 5/6; (d) every (registry, filter) pair of the C10 enumeration incl. the large registries (chains, star, tree of up to 130 / 1030 entries); and decode(encode(r)) of all of them, is checked for id == index, resolve agreement, Registry::types() keys in order, and closure of every mentioned id (fields, variant fields, params, sequence/array/compact element, tuple members, bit store/order).",
                 note="refs() is the independent visitor of every id position."),
     "C02": dict(cat="model_checking", design="§4 C02", engine=ENGINE,
                 technique="explicit-state exploration of registration histories (U1, stateright) and exhaustive type-graph enumeration (U2) with a co-inductive image check against MetaType::type_info()",
@@ -43,7 +43,7 @@ CHECKS = {
                 note="A state is a registry, a transition one retain call on a fresh clone."),
     "C11": dict(cat="model_checking", design="§4 C11", engine=ENGINE,
                 technique="explicit-state exploration of registration histories (stateright) checking prefix stability on every transition, replay determinism on every history, and all permutations of every root set up to canonical renumbering",
-                text="Every transition of the U1 and U2 explorations: the snapshot of Registry::types() before an operation is an entry-for-entry prefix of the snapshot after it; every history is replayed and must give byte-identical encodings; for every U2 graph every permutation of every root subset (size 2..4) and for U1 every pair (triples / quadruples over the core) must give the same registry after rooted canonical renumbering (no particular numbering is demanded); PortableRegistry::from(state) before / after every transition and every id handed out earlier are compared as well; long histories (all of U1 + a chain of 260 types in every rotation, U1+U3 in 16 / 32 orders) check prefix stability after every registration and equality up to renaming with the declaration order.",
+                text="Every transition of the U1 and U2 explorations: the snapshot of Registry::types() before an operation is an entry-for-entry prefix of the snapshot after it; every history is replayed and must give byte-identical encodings; for every U2 graph every permutation of every root subset (size 2..4) and for U1 every pair (triples / quadruples over the core) must give the same registry after rooted canonical renumbering (no particular numbering is demanded); PortableRegistry::from(state) before / after every transition and every id handed out earlier are compared as well; long histories (all of U1 + a chain of 260 types in every rotation, U1+U3 in 16 / 32 orders) check prefix stability after every registration and equality up to renaming with the declaration order; every order is also handed over through register_types (all at once, batches of 33 and 7): the batched replay must be byte-identical and equal to the one-by-one registry up to renaming with the k-th returned id belonging to the k-th root.",
                 note="Canonical renumbering = DFS from the roots in a fixed order following refs() positionally."),
     "C12": dict(cat="model_checking", design="§4 C12", engine=ENGINE,
                 technique="explicit-state exploration (layered parallel BFS with visited set, cross-checked against stateright) of all operation sequences on the real PortableRegistryBuilder and Interner against a duplicate-free Vec model, observations evaluated in every state",
